@@ -45,6 +45,9 @@ var decTargets = []trTarget{
 	{"frame", "FrameV1", "MessageDataWithAuth"},
 	{"frame", "FrameV1", "AuthData"},
 	{"frame", "FrameV1", "AppendixData"},
+	{"frame", "FrameV1", "MessageDataWithOffset"},
+	{"frame", "FrameV1", "FrameDataWithMargins"},
+	{"router", "", "parsePingHeader"},
 	{"peering", "LinkFrame", "LinkData"},
 	{"peering", "LinkFrame", "LinkDataWithAuth"},
 	{"peering", "LinkFrame", "Nonce"},
@@ -76,6 +79,14 @@ type decTr struct {
 	names        map[types.Object]string // integer / bool locals
 	taken        map[string]bool
 	sites        int
+	usesPS       bool
+	usesLen      bool
+	intParams    []string
+	oracles      []string
+	oracleDoc    []string
+	slices       map[types.Object][2]string
+	frameParam   types.Object
+	dataFrom     string
 	siteDoc      []string
 	skipped      []string
 	structFields []string // declared field order of the state struct
@@ -109,6 +120,19 @@ func (t *decTr) isData(e ast.Expr) bool {
 		return t.isData(v.X)
 	}
 	return false
+}
+
+// isPS: e denotes the pooled slice the frame lives in (x.pooledSlice), accessor mode only.
+func (t *decTr) isPS(e ast.Expr) bool {
+	if p, ok := e.(*ast.ParenExpr); ok {
+		return t.isPS(p.X)
+	}
+	sel, ok := e.(*ast.SelectorExpr)
+	if !ok || t.mode != "accessor" {
+		return false
+	}
+	x, ok := sel.X.(*ast.Ident)
+	return ok && t.structs[t.p.info.Uses[x]] && sel.Sel.Name == "pooledSlice"
 }
 
 func (t *decTr) lenTerm() string {
@@ -262,6 +286,18 @@ func (t *decTr) expr(e ast.Expr, g *decGuards) string {
 // sliceBounds: e = data[a:b] (a, b optional) -> lo, hi terms and the bound guard.
 func (t *decTr) sliceBounds(e ast.Expr, g *decGuards) (lo, hi string, ok bool) {
 	se, isSlice := e.(*ast.SliceExpr)
+	if isSlice && !se.Slice3 && t.isPS(se.X) {
+		t.usesPS = true
+		lo, hi = "0%Z", "len_ps"
+		if se.Low != nil {
+			lo = t.expr(se.Low, g)
+		}
+		if se.High != nil {
+			hi = t.expr(se.High, g)
+		}
+		g.add(fmt.Sprintf("go_inr len_ps %s %s", lo, hi))
+		return lo, hi, true
+	}
 	if !isSlice || !t.isData(se.X) || se.Slice3 {
 		return "", "", false
 	}
@@ -289,7 +325,12 @@ func (t *decTr) call(c *ast.CallExpr, g *decGuards) string {
 	switch fun {
 	case "len":
 		if len(c.Args) == 1 && t.isData(c.Args[0]) {
+			t.usesLen = true
 			return t.lenTerm()
+		}
+		if len(c.Args) == 1 && t.isPS(c.Args[0]) {
+			t.usesPS = true
+			return "len_ps"
 		}
 	case "m.GetUint16", "m.GetUint32", "m.GetUint64", "GetUint16", "GetUint32", "GetUint64":
 		if len(c.Args) == 1 {
@@ -346,8 +387,21 @@ func (t *decTr) call(c *ast.CallExpr, g *decGuards) string {
 			}
 		}
 	}
+	// calls into libraries outside the translated subset whose verdict is all the decoder uses:
+	// an oracle parameter (true = the library accepted)
+	switch fun {
+	case "pingTypeRegex.MatchString":
+		return t.oracle(strings.Join(strings.Fields(t.text(c)), " "))
+	}
 	t.fail("unsupported call %s", t.text(c))
 	return ""
+}
+
+func (t *decTr) oracle(what string) string {
+	n := fmt.Sprintf("oracle_%d", len(t.oracles)+1)
+	t.oracles = append(t.oracles, n)
+	t.oracleDoc = append(t.oracleDoc, fmt.Sprintf("%s = %s", n, what))
+	return n
 }
 
 func (t *decTr) findMethodOfStruct(name string) *ast.FuncDecl {
@@ -425,29 +479,38 @@ func (t *decTr) ret(rs *ast.ReturnStmt, d int) string {
 	if hasErr {
 		vals = vals[:nres-1]
 	}
-	if len(vals) != 1 {
-		t.fail("unsupported return %s", t.text(rs))
-	}
-	v := vals[0]
-	// the state struct: its assigned integer fields
-	if id, ok := v.(*ast.Ident); ok && t.structs[t.p.info.Uses[id]] {
-		var outs []string
-		for _, f := range t.structFields {
-			if cur, ok := t.fieldVar[f]; ok {
-				for _, s := range t.fieldSet {
-					if s == f {
-						outs = append(outs, cur)
+	var outs []string
+	for _, v := range vals {
+		// the state struct: its assigned integer fields
+		if id, ok := v.(*ast.Ident); ok && t.structs[t.p.info.Uses[id]] {
+			for _, f := range t.structFields {
+				if cur, ok := t.fieldVar[f]; ok {
+					for _, s := range t.fieldSet {
+						if s == f {
+							outs = append(outs, cur)
+						}
+					}
+				}
+			}
+			continue
+		}
+		if lo, hi, ok := t.sliceBounds(v, &g); ok {
+			outs = append(outs, lo, hi)
+			continue
+		}
+		// values filled in by a library (pointer results) are outside the state
+		if id, ok := v.(*ast.Ident); ok {
+			if o := t.p.info.Uses[id]; o != nil {
+				if _, isInt := t.names[o]; !isInt {
+					if _, isPtr := o.Type().(*types.Pointer); isPtr {
+						continue
 					}
 				}
 			}
 		}
-		return fmt.Sprintf("%sDOk [%s]", decInd(d), strings.Join(outs, "; "))
+		outs = append(outs, t.expr(v, &g))
 	}
-	if lo, hi, ok := t.sliceBounds(v, &g); ok {
-		return guarded(d, &g, fmt.Sprintf("%sDOk [%s; %s]", decInd(d), lo, hi))
-	}
-	t.fail("unsupported return value %s", t.text(v))
-	return ""
+	return guarded(d, &g, fmt.Sprintf("%sDOk [%s]", decInd(d), strings.Join(outs, "; ")))
 }
 
 // stmts translates a statement list; k is what follows the list.
@@ -512,6 +575,37 @@ func (t *decTr) stmts(list []ast.Stmt, d int, k func(d int) string) string {
 				return skip() // pointer / slice fields outside the state
 			}
 		}
+		// data := f.MessageData(): the byte slice this decoder works on is the frame's message
+		if id, ok := lhs.(*ast.Ident); ok && v.Tok == token.DEFINE && t.dataObj == nil && t.frameParam != nil {
+			if c, ok := rhs.(*ast.CallExpr); ok && len(c.Args) == 0 {
+				if sel, ok := c.Fun.(*ast.SelectorExpr); ok && sel.Sel.Name == "MessageData" {
+					if x, ok := sel.X.(*ast.Ident); ok && t.p.info.Uses[x] == t.frameParam {
+						t.dataObj = t.p.info.Defs[id]
+						t.dataFrom = "the frame's MessageData()"
+						return next(d)
+					}
+				}
+			}
+		}
+		// x := data[a:b]: a sub-slice handed on to a library; its bounds are checked here
+		if id, ok := lhs.(*ast.Ident); ok && v.Tok == token.DEFINE {
+			var g decGuards
+			if lo, hi, ok := t.sliceBounds(rhs, &g); ok {
+				if t.slices == nil {
+					t.slices = map[types.Object][2]string{}
+				}
+				t.slices[t.p.info.Defs[id]] = [2]string{lo, hi}
+				return guarded(d, &g, next(d))
+			}
+		}
+		// hdr = &T{}: a fresh value for a library to fill
+		if _, ok := lhs.(*ast.Ident); ok {
+			if u, ok := rhs.(*ast.UnaryExpr); ok && u.Op == token.AND {
+				if _, ok := u.X.(*ast.CompositeLit); ok {
+					return skip()
+				}
+			}
+		}
 		// integer / bool local
 		if id, ok := lhs.(*ast.Ident); ok {
 			var o types.Object
@@ -531,11 +625,27 @@ func (t *decTr) stmts(list []ast.Stmt, d int, k func(d int) string) string {
 		}
 		t.fail("unsupported assignment %s", t.text(v))
 	case *ast.IfStmt:
-		if v.Init != nil {
-			t.fail("if with init statement")
-		}
 		var g decGuards
-		cond := t.expr(v.Cond, &g)
+		cond := ""
+		if v.Init != nil {
+			as, ok := v.Init.(*ast.AssignStmt)
+			okShape := ok && as.Tok == token.DEFINE && len(as.Lhs) == 1 && len(as.Rhs) == 1
+			if be, isB := v.Cond.(*ast.BinaryExpr); okShape && isB && be.Op == token.NEQ && isNil(be.Y) {
+				okShape = t.text(be.X) == t.text(as.Lhs[0])
+			} else {
+				okShape = false
+			}
+			if okShape {
+				if c, isCall := as.Rhs[0].(*ast.CallExpr); isCall && t.text(c.Fun) == "cbor.Unmarshal" {
+					cond = "(negb " + t.oracle(strings.Join(strings.Fields(t.text(c)), " ")+" returns nil") + ")"
+				}
+			}
+			if cond == "" {
+				t.fail("if with init statement")
+			}
+		} else {
+			cond = t.expr(v.Cond, &g)
+		}
 		// snapshot of the variable environment: both branches start from it
 		saveN, saveF := map[types.Object]string{}, map[string]string{}
 		for a, b := range t.names {
@@ -607,6 +717,9 @@ func (t *decTr) stmts(list []ast.Stmt, d int, k func(d int) string) string {
 
 func translateDec(tg trTarget) (name, def, doc string, err error) {
 	name = "go_" + tg.recv + "_" + tg.name
+	if tg.recv == "" {
+		name = "go_" + tg.name
+	}
 	defer func() {
 		if r := recover(); r != nil {
 			if te, ok := r.(trErr); ok {
@@ -624,7 +737,7 @@ func translateDec(tg trTarget) (name, def, doc string, err error) {
 	if fn == nil || fn.Body == nil {
 		return name, "", "", fmt.Errorf("function not found")
 	}
-	t := &decTr{p: p, fn: fn, structs: map[types.Object]bool{}, fieldVar: map[string]string{}, names: map[types.Object]string{}, taken: map[string]bool{"data": true, "len_data": true}}
+	t := &decTr{p: p, fn: fn, structs: map[types.Object]bool{}, fieldVar: map[string]string{}, names: map[types.Object]string{}, taken: map[string]bool{"data": true, "len_data": true, "len_ps": true}}
 	if st := findStruct(p, "FrameV1"); st != nil {
 		for _, f := range st.Fields.List {
 			for _, n := range f.Names {
@@ -634,12 +747,17 @@ func translateDec(tg trTarget) (name, def, doc string, err error) {
 	}
 	var params []string
 	// receiver
-	rf := fn.Recv.List[0]
+	var rf *ast.Field
 	recvIsSlice := false
-	if tv, ok := p.info.Types[rf.Type]; ok && tv.Type != nil && tv.Type.Underlying().String() == "[]byte" {
-		recvIsSlice = true
+	if fn.Recv != nil {
+		rf = fn.Recv.List[0]
+		if tv, ok := p.info.Types[rf.Type]; ok && tv.Type != nil && tv.Type.Underlying().String() == "[]byte" {
+			recvIsSlice = true
+		}
 	}
 	switch {
+	case rf == nil:
+		t.mode = "decoder"
 	case recvIsSlice:
 		t.mode = "accessor"
 		if len(rf.Names) == 1 {
@@ -662,8 +780,14 @@ func translateDec(tg trTarget) (name, def, doc string, err error) {
 				t.dataObj = o
 			case ty == "[]byte":
 				// further slices (the pooled slice) are outside the state
+			case ty == "int" && t.mode == "accessor":
+				n2 := t.fresh("v_" + n.Name)
+				t.names[o] = n2
+				t.intParams = append(t.intParams, n2)
 			case ty == "int":
 				// integer parameters outside the state (the offset inside the pooled slice)
+			case ty == "frame.Frame":
+				t.frameParam = o
 			default:
 				trFail("parameter of unsupported type %s", ty)
 			}
@@ -672,10 +796,19 @@ func translateDec(tg trTarget) (name, def, doc string, err error) {
 	body := t.stmts(fn.Body.List, 1, func(d int) string { trFail("missing return"); return "" })
 	if t.mode == "decoder" {
 		params = append(params, "(data : list N)")
+		for _, o := range t.oracles {
+			params = append(params, fmt.Sprintf("(%s : bool)", o))
+		}
 	} else {
 		params = append(params, "(len_data : Z)")
+		if t.usesPS {
+			params = append(params, "(len_ps : Z)")
+		}
 		for _, f := range t.fieldUse {
 			params = append(params, fmt.Sprintf("(%s : Z)", "f_"+f))
+		}
+		for _, n := range t.intParams {
+			params = append(params, fmt.Sprintf("(%s : Z)", n))
 		}
 	}
 	doc = fmt.Sprintf("(* %s/%s: (%s) %s", tg.dir, filepath.Base(p.fset.Position(fn.Pos()).Filename), tg.recv, tg.name)
@@ -684,6 +817,12 @@ func translateDec(tg trTarget) (name, def, doc string, err error) {
 	}
 	if t.mode == "accessor" {
 		doc += "; DOk [lo; hi] = the returned sub-slice data[lo:hi]"
+	}
+	if t.dataFrom != "" {
+		doc += "; data = " + t.dataFrom
+	}
+	if len(t.oracleDoc) > 0 {
+		doc += "; oracles (true = accepted): " + strings.Join(t.oracleDoc, ", ")
 	}
 	if len(t.siteDoc) > 0 {
 		doc += "; error sites: " + strings.ReplaceAll(strings.Join(t.siteDoc, ", "), "*)", "* )")
